@@ -70,6 +70,16 @@ def model (line : String) : String :=
     match n.toNat?, self.toNat?, parseNats excl, parseNats seats, sess.toNat?, parseEvents evs with
     | some n, some self, some excl, some seats, some sess, some evs => modelRecv n self excl seats sess evs
     | _, _, _, _, _, _ => "bad-op"
+  | ["exec", n, self, excl] =>
+    match n.toNat?, self.toNat?, parseNats excl with
+    | some n, some self, some excl =>
+      -- the genuine first messages of everybody except self and the excluded others are delivered
+      let g := memberGroup n self excl
+      let senders := (List.range' 1 n).filter (fun m => !(m == self) && !excl.contains m)
+      let evs := senders.map fun m => Ev.recv ⟨0, m, m, 1, m⟩
+      let s := run self 1 g (List.range' 1 n) evs
+      s!"eph=1 r1={if canTransition 0 g s.hist then "reached" else "stuck"}"
+    | _, _, _ => "bad-op"
   | ["pub", n, self, dq, seats, sess, msgs] =>
     match n.toNat?, self.toNat?, parseNats dq, parseNats seats, sess.toNat?, parsePMsgs msgs with
     | some n, some self, some dq, some seats, some sess, some ms =>
@@ -131,6 +141,11 @@ def monitor (op obs : String) : String :=
         else "FAIL unadmitted-or-duplicate-message-or-wrong-CanTransition"
       | _, _, _ => "FAIL unparsable-observation"
     | _, _, _, _, _, _ => "FAIL bad-op"
+  | ["exec", _n, _self, _excl] =>
+    match field o "r1" with
+    | some "reached" => "ok"
+    | some r => "FAIL Execute-did-not-disqualify-exactly-the-excluded-members:" ++ r
+    | none => "FAIL unparsable-observation"
   | ["pub", n, self, dq, seats, sess, msgs] =>
     match n.toNat?, self.toNat?, parseNats dq, parseNats seats, sess.toNat?, parsePMsgs msgs,
           (field o "r5").bind parsePairs, field o "can" with
